@@ -1185,6 +1185,62 @@ fn main() {
             }
             println!("RESULT enum:hayson-reference {n} values: the JSON written is the Hayson representation of the value");
         }
+        // ---- C07 / C08 thorough enumerator: every filter made of up to three atoms joined by and / or, with and without parentheses, over a small
+        //      universe of records, against an oracle that evaluates the expression tree it was printed from (so precedence is tested too)
+        "enum:filter-eval-exhaustive" => {
+            use libhaystack::filter::*;
+            use libhaystack::val::Dict;
+            #[derive(Clone)]
+            enum E { Atom(usize), And(Box<E>, Box<E>), Or(Box<E>, Box<E>) }
+            let atoms = ["a", "not a", "b", "not b", "a == 1", "a != 1", "a < 2", "a >= 2", "c->d", "not c->d", "c->d == \"x\"", "a == 1kg"];
+            let mk = |pairs: &[(&str, Value)]| { let mut d = Dict::new(); for (k, v) in pairs { d.insert((*k).into(), v.clone()); } d };
+            let inner = mk(&[("d", Value::make_str("x"))]);
+            let recs = vec![mk(&[]), mk(&[("a", Value::make_int(1))]), mk(&[("a", Value::make_int(2)), ("b", Value::Marker)]), mk(&[("a", Value::make_str("1"))]),
+                mk(&[("b", Value::Null), ("c", Value::make_dict(inner.clone()))]), mk(&[("a", Value::make_number_unit(1.0, libhaystack::units::get_unit_or_default("kg"))), ("c", Value::make_int(5))]),
+                mk(&[("a", Value::make_list(vec![Value::make_int(3), Value::make_int(1)])), ("c", Value::make_dict(mk(&[("d", Value::make_int(1))])))]), mk(&[("a", Value::make_number(f64::NAN)), ("b", Value::make_int(0))])];
+            fn get<'a>(r: &'a Dict, path: &[&str]) -> Option<&'a Value> { let mut d = r; let mut cur = None; for (i, s) in path.iter().enumerate() {
+                match d.get(*s) { Some(v) if !v.is_null() => cur = Some(v), _ => return None } if i + 1 < path.len() { match cur { Some(Value::Dict(n)) => d = n, _ => return None } } } cur }
+            let num = |v: Option<&Value>, unit: Option<&str>, f: &dyn Fn(f64) -> bool| -> bool { let one = |e: &Value| matches!(e, Value::Number(n) if n.unit.map(|u| u.symbol().to_string()) == unit.map(|s| s.to_string()) && f(n.value));
+                match v { Some(Value::List(l)) => l.iter().any(|e| one(e)), Some(e) => one(e), None => false } };
+            let atom = |i: usize, r: &Dict| -> bool { match i {
+                0 => get(r, &["a"]).is_some(), 1 => get(r, &["a"]).is_none(), 2 => get(r, &["b"]).is_some(), 3 => get(r, &["b"]).is_none(),
+                4 => num(get(r, &["a"]), None, &|x| x == 1.0),
+                5 => match get(r, &["a"]) { None => false, Some(Value::List(l)) => l.iter().any(|e| !matches!(e, Value::Number(n) if n.unit.is_none() && n.value == 1.0)), Some(e) => !matches!(e, Value::Number(n) if n.unit.is_none() && n.value == 1.0) },
+                6 => match get(r, &["a"]) { Some(Value::Number(n)) if n.unit.is_some() => return false, _ => num(get(r, &["a"]), None, &|x| x < 2.0) },
+                7 => match get(r, &["a"]) { Some(Value::Number(n)) if n.unit.is_some() => return false, _ => num(get(r, &["a"]), None, &|x| x >= 2.0) },
+                8 => get(r, &["c", "d"]).is_some(), 9 => get(r, &["c", "d"]).is_none(),
+                10 => matches!(get(r, &["c", "d"]), Some(Value::Str(s)) if s.value == "x"),
+                _ => num(get(r, &["a"]), Some("kg"), &|x| x == 1.0) } };
+            fn eval(e: &E, r: &Dict, atom: &dyn Fn(usize, &Dict) -> bool) -> bool { match e { E::Atom(i) => atom(*i, r), E::And(a, b) => eval(a, r, atom) && eval(b, r, atom), E::Or(a, b) => eval(a, r, atom) || eval(b, r, atom) } }
+            // minimal parentheses: an `or` under an `and` needs them; `paren_all` also wraps every composite operand
+            fn text(e: &E, atoms: &[&str], under_and: bool, paren_all: bool) -> String { match e {
+                E::Atom(i) => atoms[*i].to_string(),
+                E::And(a, b) => { let t = format!("{} and {}", text(a, atoms, true, paren_all), text(b, atoms, true, paren_all)); if paren_all && under_and { format!("({t})") } else { t } }
+                E::Or(a, b) => { let t = format!("{} or {}", text(a, atoms, false, paren_all), text(b, atoms, false, paren_all)); if under_and || paren_all { format!("({t})") } else { t } } } }
+            let n_at = atoms.len();
+            let mut exprs: Vec<E> = (0..n_at).map(E::Atom).collect();
+            let two: Vec<E> = (0..n_at).flat_map(|i| (0..n_at).flat_map(move |j| vec![E::And(Box::new(E::Atom(i)), Box::new(E::Atom(j))), E::Or(Box::new(E::Atom(i)), Box::new(E::Atom(j)))])).collect();
+            exprs.extend(two.iter().cloned());
+            for t in two.iter().step_by(7) { for k in (0..n_at).step_by(1) {
+                exprs.push(E::And(Box::new(t.clone()), Box::new(E::Atom(k)))); exprs.push(E::Or(Box::new(t.clone()), Box::new(E::Atom(k))));
+                exprs.push(E::And(Box::new(E::Atom(k)), Box::new(t.clone()))); exprs.push(E::Or(Box::new(E::Atom(k)), Box::new(t.clone()))); } }
+            let mut n = 0u64;
+            for e in &exprs { for paren_all in [false, true] {
+                let t = text(e, &atoms, false, paren_all);
+                let f = match Filter::try_from(t.as_str()) { Ok(f) => f, Err(err) => { println!("RESULT enum:filter-eval-exhaustive filter={t:?} does not parse: {err}"); std::process::exit(3); } };
+                // the same tree again through the printer
+                let f2 = Filter::try_from(f.to_string().as_str());
+                if !matches!(&f2, Ok(g) if *g == f) { println!("RESULT enum:filter-eval-exhaustive filter={t:?} prints as {:?}, which does not parse back to the same tree", f.to_string()); std::process::exit(3); }
+                fn uses_order(e: &E) -> bool { match e { E::Atom(i) => *i == 6 || *i == 7, E::And(a, b) | E::Or(a, b) => uses_order(a) || uses_order(b) } }
+                for r in &recs {
+                    // how Numbers with different units are ordered is left open by the property: no expectation there
+                    if uses_order(e) && matches!(r.get("a"), Some(Value::Number(x)) if x.unit.is_some()) { continue; }
+                    let want = eval(e, r, &atom); let got = r.filter(&f); n += 1;
+                    if got != want { println!("RESULT enum:filter-eval-exhaustive record={r:?} filter={t:?} matched={got} expected={want}"); std::process::exit(3); }
+                }
+            } }
+            println!("RESULT enum:filter-eval-exhaustive {} filters (1-3 atoms, and/or, minimal and full parentheses) x {} records = {n} evaluations agree with the oracle", exprs.len() * 2, recs.len());
+        }
         // ---- C09 enumerator (evaluation half): `id *== @ref` over resolvers whose refs form chains and cycles of several shapes must
         //      terminate with the right answer; a run that does not come back is reported as a hang by the caller's watchdog
         "enum:wildcard-cycles" => {
